@@ -1,6 +1,8 @@
 (* Transcription of src/algorithms/shortest_path/dijkstra.rs and
    shortest_path_info.rs (after the repair of F13: all_pairs looks the target up
-   with `?` before iterating).  The algorithm reads the adjacency from
+   with `?` before iterating; and of F22: all_pairs and multi_source collect the
+   per-source `Result`s into `Result<Vec<_>, Error>` and propagate the error with `?`
+   instead of `.unwrap()`ing it inside the closure).  The algorithm reads the adjacency from
    [successors_vec] of the graph state, the node count from [nodes_vec], names
    through [nodes_map] / [nodes_map_rev] — the fields the Rust code reads.
 
@@ -308,9 +310,12 @@ Section Dijkstra.
   Definition parallel (g : gstate) (threads : nat) : bool :=
     Nat.ltb SERIAL_TO_PARALLEL_THRESHOLD (number_of_nodes g) && Nat.ltb 1 threads.
 
-  (* dijkstra.rs:331.  The rayon branch maps the same closure over the same
-     indexed source and collects in index order (Model of the rayon fragment:
-     DESIGN.md 2.2 "Schedules"), so both branches are the same [omapM]. *)
+  (* dijkstra.rs:331.  The closure returns `single_source(..).map(|paths| (source, paths))`,
+     a `Result`; both arms `.collect::<Result<Vec<_>, Error>>()` and the function propagates
+     the error with `?` (repair of F22; before it the closure `.unwrap()`ed, site
+     "dijkstra.rs:376").  The serial collect stops at the first `Err` in index order: [omapM]
+     with `Err k` as a value of the error channel.  The rayon branch is written with the same
+     term here; Model/ParFns.v transcribes it with the schedule as an argument. *)
   Definition multi_source (threads : nat) (g : gstate) (weighted : bool) (sources : list T)
              (target : option T) (cutoff : option Q) (first_only with_paths : bool)
     : outcome (list (T * list (T * spinfo T))) :=
@@ -319,8 +324,7 @@ Section Dijkstra.
     do tb <- match target with Some t => has_node teqb g t | None => Ok true end;
     if negb tb then Err NodeNotFound else
     let one := fun source =>
-      do m <- unwrap_result "dijkstra.rs:376"
-                (single_source g weighted source target cutoff first_only with_paths);
+      do m <- single_source g weighted source target cutoff first_only with_paths;
       Ok (source, m) in
     do l <- (if parallel g threads then omapM one sources else omapM one sources);
     Ok (collect_map l).
@@ -329,7 +333,11 @@ Section Dijkstra.
   Definition ensure_weighted (g : gstate) : outcome unit :=
     if edges_have_weight g then Ok tt else Err EdgeWeightNotSpecified.
 
-  (* dijkstra.rs:140 all_pairs_iter and :178 all_pairs_par_iter *)
+  (* dijkstra.rs:140 all_pairs_iter and :178 all_pairs_par_iter, collected by all_pairs into
+     `Result<Vec<_>, Error>` (dijkstra.rs:125/129) and propagated with `?` (:131).  The closure is
+     `let ss_index = match can_use_basic {..}?; Ok((node_index, ss_index))` (repair of F22; before
+     it `.unwrap()`, site "dijkstra.rs:172").  The unwrap of the target lookup (:153) is still there
+     (unreachable from all_pairs, which looks the target up with `?` first). *)
   Definition all_pairs_iter (g : gstate) (weighted : bool) (target : option T) (cutoff : option Q)
              (first_only with_paths : bool) : outcome (list (nat * list (nat * spinfo nat))) :=
     do ti <- match target with
@@ -337,8 +345,7 @@ Section Dijkstra.
              | None => Ok None
              end;
     omapM (fun node_index =>
-             do r <- unwrap_result "dijkstra.rs:172"
-                       (run_from_index g weighted node_index target ti cutoff first_only with_paths);
+             do r <- run_from_index g weighted node_index target ti cutoff first_only with_paths;
              Ok (node_index, r))
           (seq 0 (number_of_nodes g)).
 
